@@ -271,6 +271,13 @@ def run(ctx):
         ctx.note('%d outcomes differ from the algorithm spec prediction (e.g. algorithm cannot perform the operation although the flag allows it); drift only' % drift)
     rej = ctx.judge('Trace_C16', ev)
     ctx.traces += len(ev) - len(rej)
+    bad = {i for i, _ in rej}
+    good = [e for i, e in enumerate(ev) if i not in bad]
+    ctx.selftest(lambda b: ctx.judge('Trace_C16', b), good,
+                 [('signature does not verify under the named component', lambda e: dict(e, verified=False) if e['out'] >= 0 else None),
+                  ('an unqualified component used under enforcement', lambda e: dict(e, out=1) if e['sc']['op'] == 'sign' and e['sc']['enforce'] and e['out'] == 0 and len(e['sc']['subs']) == 1 and 'S' not in e['sc']['subs'][0][-1] and e['sc']['form'] == 'private-unprotected' else None),
+                  ('operation performed on a public key', lambda e: dict(e, out=0, verified=True) if e['sc']['op'] == 'sign' and e['sc']['form'] == 'public' else None),
+                  ('a component that does not exist named', lambda e: dict(e, out=3) if e['out'] >= 0 and len(e['sc']['subs']) < 3 else None)], 'C16')
     for idx, clause in rej:
         e = ev[idx]
         sc = e['sc']
